@@ -12,27 +12,27 @@ def claim(id, cat, text, note, tech, ref):
 claim("C17", "exploration",
       "Bounded-exhaustive enumeration of all strings of <=3 (quick) / <=4 (thorough) symbols over the 20-symbol hostile alphabet and all short lists, plus random long strings with shrinking, through four oracles: quote->split round trip, join->split round trip, differential decoding by the real bash, and panic-freedom of split. Finds any encoding defect that manifests within the enumerated bound or the random sample; says nothing beyond it.",
       "Trusts bash on PATH as the reference decoder; arguments are non-empty and NUL-free; harness links the fclones library built from /repo with the verif cfg (re-exports only).",
-      "bounded-exhaustive enumeration + proptest random generation with round-trip and differential (bash) oracles", "DESIGN.md 4 C17")
+      "bounded-exhaustive enumeration + proptest random generation with round-trip and differential (bash) oracles; thorough tier adds a coverage-guided libFuzzer campaign (fuzz_args, round-trip oracle inside the target)", "DESIGN.md 4 C17")
 
 claim("C01", "exploration",
-      "Generated trees (near-duplicate pairs differing in one byte at stage-boundary offsets, sizes straddling prefix / 64 KiB buffer / suffix threshold, hard links, symlinks) x generated group configurations (7 hash functions, cache cold+warm, shrinking/keeping/expanding transforms in 5 I/O modes, prefix/suffix knobs, pinned SSD/HDD/unknown, thread specs); every reported path is read back by the harness and compared byte for byte, group length checked. A sample of the configuration space per run, shrunk counterexamples; no claim outside the explored cases.",
+      "Generated trees (near-duplicate pairs differing in one byte at stage-boundary offsets, sizes straddling prefix / 64 KiB buffer / suffix threshold, hard links, symlinks) x generated group configurations (7 hash functions, cache cold+warm, shrinking/keeping/expanding transforms in 5 I/O modes, prefix/suffix knobs, pinned SSD/HDD/unknown, thread specs, -H/-S/-L, rf-over/rf-under/unique, roots as arguments or through --stdin); every reported path is read back by the harness and compared byte for byte, group length checked. A sample of the configuration space per run, shrunk counterexamples; no claim outside the explored cases.",
       "Trusts: harness file reads, native re-implementation of the deterministic helper transforms (self-tested against the helper programs), the disk-kind pin hook. --skip-content-hash excluded by statement.",
       "proptest-generated trees and configurations driving the real binary; oracle = direct byte comparison of reported members", "DESIGN.md 4 C01")
 claim("C03", "exploration",
-      "Generated trees with shared contents over several directories/roots, hard links, overlapping and repeated roots, path pairs whose components concatenate identically, x configurations (rf-over/rf-under/unique, transform, cache, hash fn, stage knobs, pinned device); report compared as a set of path-sets against a reference content partition + documented replica rule computed by the harness from its own walk. Detects missing, split, merged, duplicated and unselected entries within the explored sample.",
+      "Generated trees with shared contents over several directories/roots, hard links, overlapping and repeated roots given as arguments or through --stdin, path pairs whose components concatenate identically, x configurations (rf-over/rf-under/unique, transform, cache, hash fn, stage knobs, pinned device); report compared as a set of path-sets against a reference content partition + documented replica rule computed by the harness from its own walk. Detects missing, split, merged, duplicated and unselected entries within the explored sample.",
       "Trusts the reference walk/partition model (plain names: no hidden files, ignore files or patterns - those are C09's) and the disk-kind pin hook.",
       "proptest-generated trees/configurations; oracle = reference model (content partition + replica rule) compared set-wise", "DESIGN.md 4 C03")
 
 claim("C06", "exploration",
-      "Generated link structures (hard-link sets inside/across roots, file and directory symlinks, overlapping roots, root names that are string prefixes of each other) x 9 root spellings x rf-over/rf-under/unique/-H/-I/-S/-L; reported classes must equal the reference replica-count model, and canonical / alternative spellings of the same roots must give identical groups and statistics (metamorphic).",
+      "Generated link structures (hard-link sets inside/across roots, file and directory symlinks, overlapping roots, root names that are string prefixes of each other) x 9 root spellings x rf-over/rf-under/unique/-H/-I/-S/-L; reported classes must equal the reference replica-count model, and canonical / alternative spellings of the same roots, and the same roots fed through --stdin, must give identical groups and statistics (metamorphic).",
       "Trusts the reference replica-count model written from README section 'Handling links' and --help; root arguments are directories.",
       "proptest generation; oracle = reference replica-count model + metamorphic relation over root spellings", "DESIGN.md 4 C06")
 claim("C13", "exploration",
-      "Generated trees of 20-150 files; report body must be byte-identical across repetitions, 5-7 thread-pool specifications (incl. all pools of size 1 and 64 and 0=auto), root permutations and --stdin; partition identical across hash functions, prefix/suffix sizes, pinned device kinds and cache; every run must exit - a run past the watchdog is a violation only when proven hung (no syscalls, no voluntary context switches, no children for 5 s), otherwise inconclusive (exit 2).",
+      "Generated trees of 20-150 files; report body must be byte-identical across repetitions, 5-7 thread-pool specifications (incl. all pools of size 1 and 64 and 0=auto), root permutations and --stdin; a second generator checks order independence of the walk (small trees with file/directory symlinks and cycles, overlapping/repeated roots, -L/-S/--depth/--hidden/-H, --rf-over 0: identical body for permuted, reversed and --stdin roots and for size-1 and default pools); partition identical across hash functions, prefix/suffix sizes, pinned device kinds and cache; every run must exit - a run past the watchdog is a violation only when proven hung (no syscalls, no voluntary context switches, no children for 5 s), otherwise inconclusive (exit 2).",
       "Hangs and order nondeterminism are only seen under schedules the OS produces during the run; watchdog 25 s vs ~20 ms normal run time.",
       "proptest generation; metamorphic oracle over tuning knobs, thread pools, root order, repetition; quiescence-based hang detection", "DESIGN.md 4 C13")
 claim("C14", "exploration",
-      "Generated trees (hostile names, hard-link sets, 1-3 roots) x configurations; each case runs group in text/JSON/CSV/fdupes and with -o; header totals, per-group counts, redundant/missing (recomputed from the listed groups by the reference sub-grouping rule), ordering by size, absolute paths, isolate-root contiguity, cross-format agreement (independent harness parsers) and -o == stdout are asserted.",
+      "Generated trees (hostile names, hard-link sets, 1-3 roots) x configurations; each case runs group in text/JSON/CSV/fdupes and with -o; header totals, per-group counts, redundant/missing (recomputed from the listed groups by the reference sub-grouping rule), ordering by size, absolute paths, isolate-root contiguity, cross-format agreement (independent harness parsers) and -o == stdout (also when the -o file already holds a longer, older report) are asserted; roots are given in sorted and non-sorted order.",
       "Trusts the harness parsers (documented writer format) and the reference sub-grouping rule.",
       "proptest generation; oracle = invariants over the report + differential across the four output formats", "DESIGN.md 4 C14")
 
@@ -41,37 +41,37 @@ claim("C02", "exploration",
       "Two open known findings (symlink under another isolate root retained as replica of its own target). Reflink success is unreachable on the sandbox file systems (refusal path only). Files carry old mtimes so the staleness guard is not in play (C04's business).",
       "proptest-generated scenarios driving the real binary; oracle = invariants over before/after inventories of the file system", "DESIGN.md 4 C02")
 claim("C08", "exploration",
-      "Generated groups (metacharacter/non-ASCII names, hard-link subsets, roots, controlled tied timestamps) x priority lists over all 12 values, keep/drop globs from actual names, n explicit or inherited, isolate/-H explicit or inherited through text and JSON headers; the set of files a real run changes must equal the set computed by the reference keep/drop rule; separate clauses for keep patterns, drop patterns and sub-group atomicity.",
+      "Generated groups (metacharacter/non-ASCII names, hard-link subsets, roots, controlled tied timestamps; a second generator makes groups of 20-48 replicas with more than 20 sub-groups) x priority lists over all 12 values, keep/drop globs from actual names, n explicit or inherited, isolate/-H explicit or inherited through text and JSON headers; the set of files a real run changes must equal the set computed by the reference keep/drop rule; separate clauses for keep patterns, drop patterns and sub-group atomicity.",
       "Reference rule written from --help/README; sub-groups whose members disagree on a sort key skip the exact comparison (undocumented aggregation); glob semantics from the reference matcher.",
       "proptest generation; oracle = reference model of the keep/drop rule compared with inventory diffs", "DESIGN.md 4 C08")
 claim("C11", "exploration",
-      "Generated scenarios as C02 x remove/link/link --soft/move: three dry runs with different rayon pool sizes must print identical scripts (modulo temp suffix) in report order; operations parsed from the script must equal the changes of a real run (set, kind, summary counts and bytes); for remove/link/link --soft the script is executed by bash on an identically rebuilt tree and the resulting tree must equal the real run's (paths, types, bytes, symlink targets, hard-link partition).",
+      "Generated scenarios as C02 (one report in five from `group --transform 'head -c 3'`, so that group members differ in size) x remove/link/link --soft/move: three dry runs with different rayon pool sizes must print identical scripts (modulo temp suffix) in report order; operations parsed from the script must equal the changes of a real run (set, kind, summary counts and bytes); for remove/link/link --soft the script is executed by bash on an identically rebuilt tree and the resulting tree must equal the real run's (paths, types, bytes, symlink targets, hard-link partition).",
       "Open known findings for --symbolic-links combined with --isolate / cross-device move. `dedupe` not compared (reflink unsupported here). atime-based priorities replaced (reads between runs change atimes).",
       "proptest generation; differential oracle: dry-run script vs real run vs bash execution of the script", "DESIGN.md 4 C11")
 claim("C18", "exploration",
-      "Generated scenarios x `move DIR` with DIR outside/inside the scanned tree, on tmpfs->ext4 (EXDEV copy fallback) and on a loop-mounted ext4 that fclones sees as another mount (copy path), absolute or relative, with obstacles planted from a dry run (colliding file, directory at destination, file at parent, dangling symlink). Inventory oracle: pre-existing entries under DIR untouched, vanished sources complete at DIR/<abs path> which did not exist before, injective count, unmoved sources untouched with a warning.",
-      "Injected rename/copy failures are C05's fault enumeration. Loop mount needs root; absent => those cases fall back to the plain ext4 target.",
+      "Generated scenarios x `move DIR` with DIR outside/inside the scanned tree, on tmpfs->ext4 (EXDEV copy fallback) and on a loop-mounted ext4 that fclones sees as another mount (copy path), absolute or relative, with obstacles planted from a dry run (colliding file, directory at destination, file at parent, dangling symlink); in a third of the cases the k-th mutating libc call (k=1..24) fails with EIO/ENOSPC/EPERM through the LD_PRELOAD interposer. Inventory oracle: pre-existing entries under DIR untouched, vanished sources complete at DIR/<abs path> which did not exist before, injective count, unmoved sources untouched with a warning.",
+      "One injected failure per run at a generated position (C05 enumerates every position); after an injected failure an incomplete copy may remain under DIR. Loop mount needs root; absent => those cases fall back to the plain ext4 target.",
       "proptest generation; oracle = invariants over before/after inventories", "DESIGN.md 4 C18")
 claim("C20", "exploration",
-      "Generated scenarios x all five operations x subsets of the intended files locked by the harness through open-file-description write locks on four byte ranges (whole file, beyond EOF, first byte, tail) x --no-lock on/off x same-mount and cross-mount move targets. Locked files must be untouched with a warning; unlocked intended files must be processed; with --no-lock everything intended is processed.",
+      "Generated scenarios x all five operations x subsets of the intended files locked by the harness through open-file-description write or read locks on four byte ranges (whole file, beyond EOF, first byte, tail) x --no-lock on/off x locked files writable or read-only with fclones run without CAP_DAC_OVERRIDE (setpriv) x same-mount and cross-mount move targets. Locked files must be untouched with a warning; unlocked intended files must be processed; with --no-lock everything intended is processed.",
       "OFD locks of the harness conflict with fclones' F_SETLK like a foreign process' lock; intention learnt from a dry run.",
       "proptest generation; oracle = inventory comparison against the dry-run intention under foreign locks", "DESIGN.md 4 C20")
 
 claim("C10", "exploration",
       "In-process through fclones' public ReportWriter/open_report: bounded-exhaustive over all strings of <=3/<=4 symbols of the 20-symbol hostile alphabet placed as first/middle/last path component, command argument and base-dir component, in text and JSON; random reports (arbitrary non-NUL bytes, 0-6 groups plus groups of 1023-2050 files, ms timestamps with offsets, statistics, 16/32/64-byte hashes) with shrinking; a quarter of the random reports additionally cut at every byte offset / line boundary: only complete original groups may be yielded and no clean end inside a group. Oracle = field-by-field round trip.",
       "Links the fclones library built from /repo (verif cfg re-exports Arg only). Absolute paths, non-empty NUL-free components and arguments. A cut removing only the final newline may be accepted.",
-      "bounded-exhaustive enumeration + proptest random generation; round-trip and truncation oracles", "DESIGN.md 4 C10")
+      "bounded-exhaustive enumeration + proptest random generation; round-trip and truncation oracles; thorough tier adds a coverage-guided libFuzzer campaign (fuzz_report, same oracles inside the target)", "DESIGN.md 4 C10")
 claim("C16", "exploration",
       "In-process: every glob of <=3/<=4 tokens over the 19-token alphabet against all 2800 paths of <=4 components, case-sensitive and ignore-case, Pattern::glob vs the harness' reference matcher (README Path Globbing); random 7-token globs and grammar-generated nested groups with metacharacter literals; conservativeness of PathSelector::matches_dir for every ancestor of every selected path under random include/exclude sets (absolute and base-dir-relative, base dirs containing . - + ( ) $ non-ASCII).",
       "One open known finding (non-ASCII text in the literal prefix of an include pattern prunes ancestors; cannot be repaired without contradicting an existing unit test). !( ) not generated.",
-      "bounded-exhaustive enumeration + proptest random generation; differential oracle against a reference glob matcher, and a conservativeness invariant", "DESIGN.md 4 C16")
+      "bounded-exhaustive enumeration + proptest random generation; differential oracle against a reference glob matcher, and a conservativeness invariant; thorough tier adds a coverage-guided libFuzzer campaign (fuzz_glob, same oracles inside the target)", "DESIGN.md 4 C16")
 
 claim("C05", "fault_enumeration",
       "For each generated scenario the complete sequence of mutating libc calls of the dedupe command is recorded under an LD_PRELOAD interposer (single rayon thread), then every position is re-executed on an identically rebuilt tree with a kill before it, a kill after it, the call failing with each applicable errno (2 in quick, all in thorough) and the pair (call fails, next call fails). State-based oracle per original file (original bytes at the path / untouched other replica / complete move target / exactly one temporary sibling after a kill or double fault), an untouched replica of every content, processed-count and warning checks. Complete over positions of each explored scenario; scenarios themselves are sampled.",
       "Faults and kills happen at libc call boundaries; FICLONE success is emulated by the interposer (a model of a reflink file system, not fclones code); raw syscalls would escape the interposer (the import table shows none for file operations).",
       "fault enumeration: recorded call sequence x {kill before, kill after, errno, double fault} on proptest-generated scenarios; state-based oracle", "DESIGN.md 4 C05")
 claim("C07", "exploration",
-      "Generated trees x group with every transform I/O mode, --no-copy, --in-place, --cache, -o, link options and helper programs that read all/part/none of the input, fail, or never open $OUT; and all five dedupe operations with --dry-run. Strict inventory equality (paths, bytes, inodes, link counts, symlink targets, mtimes, modes), zero mutating libc calls below the scanned tree in the LD_PRELOAD trace of fclones and its children, and no fclones-* leftovers in TMPDIR.",
+      "Generated trees x group with every transform I/O mode, --no-copy, --in-place, --cache (XDG_CACHE_HOME private / unset / empty / relative), -o, link options, working directory outside or inside the scanned tree, and helper programs that read all/part/none of the input, fail, or never open $OUT; and all five dedupe operations with --dry-run. Strict inventory equality (paths, bytes, inodes, link counts, symlink targets, mtimes, modes), zero mutating libc calls below the scanned tree in the LD_PRELOAD trace of fclones and its children, and no fclones-* leftovers in TMPDIR.",
       "Mutations observed at libc level; helpers never write to $IN so any input change is fclones' own.",
       "proptest generation; oracle = inventory equality + system-call trace invariant (LD_PRELOAD interposer)", "DESIGN.md 4 C07")
 
@@ -85,12 +85,12 @@ claim("C04", "exploration",
       "Edits kept >= 30 ms away from fclones' clock reads (tick-granular kernel mtimes); pause granularity is a libc call; mtime-preserving replacement excluded by statement.",
       "proptest-generated histories with schedule control (pause points) ; oracle = inventory invariants around the dedupe run", "DESIGN.md 4 C04")
 claim("C12", "exploration",
-      "Generated histories of 1-6 (edits ; run) steps over files sharing long prefixes/suffixes: in-place same-length rewrites, copies of other files' content, append/truncate with or without mtime change, rename, delete+recreate (inode reuse on ext4, counted), hard links, SIGKILL of a running cached group; options change on some steps. After every step the cached run (cold and warm) must print byte-identical report bodies (hashes, statistics, groups) to the uncached run with the same options.",
-      "Premise of the property is enforced by the harness: every content change gets a new mtime on a 1 ms logical clock or a different length.",
+      "Generated histories of 1-6 (edits ; run) steps over files sharing long prefixes/suffixes: in-place same-length rewrites with a newer or an older mtime, copies of other files' content, append/truncate with or without mtime change, rename, delete+recreate (inode reuse on ext4, counted), hard links, SIGKILL of a running cached group; options change on some steps (incl. the same transform program with other arguments). After every step the cached run (cold and warm) must print byte-identical report bodies (hashes, statistics, groups) to the uncached run with the same options.",
+      "Premise of the property is enforced by the harness: every content change gets a fresh mtime (1 ms logical clock forwards, or a fresh value below all earlier ones) or a different length.",
       "proptest-generated histories; differential oracle against the uncached tool", "DESIGN.md 4 C12")
 
 claim("C09", "exploration",
-      "Generated trees (nesting 0-4, metacharacter / blank / bracket / non-ASCII / dot-prefixed names, ignore files from a restricted grammar, hard links, all kinds of symlinks incl. cycles and a sub-tree on another device) x --depth, --hidden, --no-ignore, -L, -S, --min/--max, --name/--path/--exclude as globs or regexes (absolute or relative to a working directory inside the tree), -i with case-flipped patterns, --one-fs, overlapping and repeated roots. `group --rf-over 0 -f json` lists every selected file; it must equal, as a set, the reference walk written from README/--help, in which pruning does not exist.",
+      "Generated trees (nesting 0-4, metacharacter / blank / bracket / non-ASCII / dot-prefixed names, ignore files from a restricted grammar, hard links, all kinds of symlinks incl. cycles and a sub-tree on another device) x --depth, --hidden, --no-ignore, -L, -S, --min/--max, --name/--path/--exclude as globs or regexes (absolute or relative to a working directory inside the tree), -i with case-flipped patterns, --one-fs, overlapping and repeated roots as arguments or through --stdin, a user-level ignore file together with --no-ignore. `group --rf-over 0 -f json` lists every selected file; it must equal, as a set, the reference walk written from README/--help, in which pruning does not exist.",
       "Domain restrictions where the documentation does not settle the behaviour: hidden root names, both ignore files in one directory, deeper negations, ignore files or --path/--exclude together with -L. One open known finding (non-ASCII literal prefix of an include pattern).",
       "proptest generation; oracle = reference walk / selection model compared set-wise", "DESIGN.md 4 C09")
 
